@@ -387,7 +387,7 @@ class C18:
     ID = 'C18'
     THEOREMS = [('Properties.C18', ['C18_render_faithful', 'C18_render_text_faithful', 'C18_nodes_edges_exact',
                                     'C18_line_roundtrip', 'C18_last_class_id', 'C18_label_safeb',
-                                    'C18_file_names', 'C18_file_name_inj', 'C18_accepting_labels_exact',
+                                    'C18_file_names', 'C18_file_name_inj', 'C18_node_names_injective', 'C18_accepting_labels_exact',
                                     'C18_compiled_start_not_accepting'])]
     COQ_TARGETS = ['Properties/C18.vo']
     LEVEL = 'proof'
